@@ -23,6 +23,8 @@ SPEC = os.path.join(VERIF, "spec")
 HARNESS = os.path.join(VERIF, "harness")
 BUILD = os.environ.get("VERIF_BUILD_ROOT", os.path.join(VERIF, "build"))
 WORK = os.path.join(BUILD, "work")
+# evidence and replay files of trial runs against a scratch tree (seeded changes) go elsewhere
+OUT = os.environ.get("VERIF_OUT", VERIF)
 NCPU = os.cpu_count() or 4
 
 
@@ -240,7 +242,7 @@ class Ctx:
         self.violations = []     # (signature, description, replay_path)
         self.known_hits = {}
         self.known = [k for k in load_known() if k.get("property") == prop and k.get("status") == "known"]
-        self.replay_dir = os.path.join(VERIF, "replays")
+        self.replay_dir = os.path.join(OUT, "replays")
         os.makedirs(self.replay_dir, exist_ok=True)
         for f in os.listdir(self.replay_dir):          # replay files of earlier runs of this check and tier are stale
             if f.startswith("%s-%s-" % (prop, tier)):
@@ -297,8 +299,8 @@ class Ctx:
               "coverage": cov, "assumptions": self.assumptions, "wall_s": round(time.time() - self.t0, 2),
               "violations": len(self.violations),
               "known_findings_hit": [k["what"] for k in self.known_hits.values()]}
-        os.makedirs(os.path.join(VERIF, "evidence"), exist_ok=True)
-        with open(os.path.join(VERIF, "evidence", self.prop + ".json"), "w") as f:
+        os.makedirs(os.path.join(OUT, "evidence"), exist_ok=True)
+        with open(os.path.join(OUT, "evidence", self.prop + ".json"), "w") as f:
             json.dump(ev, f, indent=1, default=str)
         return 1 if self.violations else 0
 
